@@ -446,6 +446,9 @@ def observed_map(w: World, op) -> int:
     return op[1]
 
 
+RAISED: list = []
+
+
 def run_case(ops) -> tuple[list, list, list]:
     """Run on the implementation; returns ([(flat_op, observed_map, err, obs)], [(map, query, sorted result)],
     [(position of the probe step, map, which, key, [entities yielded])] for every index iteration)."""
@@ -454,9 +457,13 @@ def run_case(ops) -> tuple[list, list, list]:
     iters = []
     for op in ops:
         pos = len(steps)
-        for flat, err in w.steps(op):
-            m = observed_map(w, flat)
-            steps.append((flat, m, err, w.observe(m)))
+        try:
+            for flat, err in w.steps(op):
+                m = observed_map(w, flat)
+                steps.append((flat, m, err, w.observe(m)))
+        except Exception as exc:   # noqa: BLE001 - an exception escaping the API: the model has none, report as disagreement
+            RAISED.append((ops, f'{type(exc).__name__}: {exc}'))
+            break
         if op[0] == 'iter' and op[2] in ('class', 'target') and not w.iter_truncated:
             iters.append((pos, op[1], op[2], op[3], list(w.iter_yields)))
     queries = []
@@ -477,6 +484,7 @@ def corr(ck: Ck, escalate: bool = False, shapes: bool = False) -> None:
     # quick tier with a broken tie: a larger random budget, but the exhaustive short histories stay in thorough
     n = 2500 if ck.thorough else (600 if (escalate or ck.tie_broken) else 240)
     cases = []
+    RAISED.clear()
     seqs: list = list(CORPUS)
     if ck.thorough:
         seqs += list(exhaustive_short())
@@ -503,6 +511,7 @@ def corr(ck: Ck, escalate: bool = False, shapes: bool = False) -> None:
     bad: list[tuple[int, Any]] = []
     bad_q: list[tuple[int, Any]] = []
     bad_i: list[tuple[int, Any]] = []
+    bad_q2: list[tuple[int, Any]] = []
     B = min(120, max(40, -(-len(cases) // 6)))     # quick: 6 parallel batches
     from concurrent.futures import ThreadPoolExecutor
     from harness.common import parse_coq_nested
@@ -513,14 +522,16 @@ def corr(ck: Ck, escalate: bool = False, shapes: bool = False) -> None:
         lits = []
         qlits = []
         ilits = []
+        q2lits = []
         for ops, steps, queries, iters in part:
             lits.append('[' + '; '.join(f'({coq_wop(tab, f)}, {m}, {coq_exp(tab, err, obs)})' for f, m, err, obs in steps) + ']')
             flat_ops = '[' + '; '.join(coq_wop(tab, f) for f, _m, _e, _o in steps) + ']'
             qs = ' && '.join(f'match w !! {m} with Some st => sq {_c_nats(r)} {_strtab(tab, q)} st | None => false end'
                              for m, q, r in queries)
             if shapes:   # VMF.search as written (generated program over the defaultdict semantics), 5 of the queries
-                qs += ''.join(f' && match w !! {m} with Some st => sq2 {_c_nats(r)} {_strtab(tab, q)} st | None => false end'
-                              for m, q, r in queries if q in QUERIES_SH)
+                qs2 = ' && '.join(f'match w !! {m} with Some st => sq2 {_c_nats(r)} {_strtab(tab, q)} st | None => false end'
+                                  for m, q, r in queries if q in QUERIES_SH)
+                q2lits.append(f'(let w := wrun ascii_fold {flat_ops} w2 in {qs2})')
             qlits.append(f'(let w := wrun ascii_fold {flat_ops} w2 in {qs})')
             if iters:
                 chk = ' && '.join(
@@ -534,7 +545,8 @@ def corr(ck: Ck, escalate: bool = False, shapes: bool = False) -> None:
         pre = PRE + (PRE_SHAPES if shapes else '') + ''.join(f'Definition {name} : str := {_coq_str(s)}.\n' for s, name in tab.items())
         exprs = ['[' + '; '.join(f'first_bad 0 {l} w2' for l in lits) + ']',
                  '[' + '; '.join(qlits) + ']',
-                 '[' + '; '.join(ilits) + ']']
+                 '[' + '; '.join(ilits) + ']',
+                 '[' + '; '.join(q2lits) + ']']
         imports = IMPORTS + (['SV.SM.IndexShapes', 'SV.Gen.IndexShapes_gen'] if shapes else [])
         return lo, ck.coq_eval(imports, exprs, name=f'index{lo}', preamble=pre, timeout=900)
 
@@ -556,13 +568,28 @@ def corr(ck: Ck, escalate: bool = False, shapes: bool = False) -> None:
         for i, r in enumerate(parse_coq_nested(vals[2])):
             if r is not True:
                 bad_i.append((lo + i, None))
+        for i, r in enumerate(parse_coq_nested(vals[3])):
+            if r is not True:
+                bad_q2.append((lo + i, None))
     ck.obligation('correspondence:index_ops', not bad,
                   f'{len(cases)} histories / {sum(len(c[1]) for c in cases)} steps: after every step error code, entity list, '
                   f'spawn, all key lists, by_class and by_target of model (vm_compute) vs implementation: {len(bad)} disagreements')
     ck.obligation('correspondence:search', not bad_q,
-                  f'{len(cases)} final worlds x {len(QUERIES)} queries per map, model search'
-                  + (f' and, for {len(QUERIES_SH)} of them, search_sh gen_search_shape (VMF.search as written)' if shapes else '')
-                  + f' vs VMF.search: {len(bad_q)} disagreements')
+                  f'{len(cases)} final worlds x {len(QUERIES)} queries per map, model search vs VMF.search: {len(bad_q)} disagreements')
+    if shapes:
+        # diagnostic tie of the program semantics (sp_run): the generated program, run on the model state, predicts
+        # what the implementation returns — also for a shape that fails its obligations (up to empty sets that
+        # make_unique / iteration left behind in the implementation only)
+        ck.obligation('correspondence:search_as_written', not bad_q2,
+                      f'{len(cases)} final worlds x {len(QUERIES_SH)} queries per map, search_sh gen_search_shape '
+                      f'(the program read off VMF.search) vs VMF.search: {len(bad_q2)} disagreements')
+        if bad_q2:
+            ck.tie_broken.append('correspondence search as written (SM/IndexShapes.v sp_run vs VMF.search)')
+    if RAISED:
+        ck.obligation('correspondence:no_exception_escapes', False,
+                      f'{len(RAISED)} histories in which an exception other than KeyError/ValueError escaped the implementation '
+                      f'(the model has none), first: {RAISED[0][1]} in {RAISED[0][0]!r}'[:1500])
+        ck.tie_broken.append('correspondence: an exception escaped the implementation')
     n_it = sum(len(c[3]) for c in cases)
     ck.obligation('correspondence:index_iteration', not bad_i,
                   f'{n_it} iterations of by_class[k] / by_target[k] with a mutating loop body: the entities the implementation '
